@@ -625,6 +625,45 @@ func c14Push(c *Ctx) {
 			}
 			idx := fl.K.Key(ia.Index)
 			facts := fl.At(u)
+			if hf := u.Parent(); hf != nil && hf != push {
+				// the dropped entry is taken by a private helper of the queue (`dropped, _ = q.takeHead()`): the slot it
+				// reads, in push's terms at the call, provided the helper has not moved the index before reading it
+				idx = "\x00"
+				hk := NewKeyer(p, hf)
+				for _, cs := range callsIn(push, false, func(cc *ssa.CallCommon) bool { return calleeIs(cc, hf) }) {
+					if len(cs.Common().Args) == 0 || len(hf.Params) == 0 {
+						continue
+					}
+					written := false
+					if idxLoad, isLoad := ia.Index.(*ssa.UnOp); isLoad {
+						if ifa, isFA := idxLoad.X.(*ssa.FieldAddr); isFA {
+							fname := fieldName(ifa.X.Type(), ifa.Field)
+							isStoreToIdx := func(in ssa.Instruction) bool {
+								st, ok := in.(*ssa.Store)
+								if !ok {
+									return false
+								}
+								sfa, ok := st.Addr.(*ssa.FieldAddr)
+								return ok && fieldName(sfa.X.Type(), sfa.Field) == fname
+							}
+							// a store to the index field on a path from the helper's entry to the load
+							eachInstr(hf, func(in ssa.Instruction) {
+								if isStoreToIdx(in) && (precedes(in, idxLoad) || reachAvoidFromPlain(in.Block(), 0, func(x ssa.Instruction) bool { return x == ssa.Instruction(idxLoad) }, func(ssa.Instruction) bool { return false }, map[*ssa.BasicBlock]bool{}) != nil && in.Block() != idxLoad.Block()) {
+									written = true
+								}
+							})
+						} else {
+							written = true
+						}
+					} else {
+						written = true
+					}
+					if !written {
+						idx = strings.ReplaceAll(hk.Key(ia.Index), "p0->", fl.K.Key(cs.Common().Args[0])+"->")
+						facts = fl.At(cs)
+					}
+				}
+			}
 			if idx == slotIdx || facts[eqFact(idx, slotIdx)] {
 				continue
 			}
@@ -648,6 +687,11 @@ func c14QueueTables(c *Ctx) {
 	}
 	// ---- pop ----
 	if pop := p.Method("core/eventloop", "queue", "pop"); pop != nil {
+		// pop may be the locking wrapper of a private method of the queue that does the work
+		// (`Lock; defer Unlock; return q.takeHead()`): the table is that method's
+		if inner := c14TailForwarded(p, pop); inner != nil {
+			pop = inner
+		}
 		fl := NewFlow(p, pop)
 		abbrevFn = ab
 		paths, err := enumPaths(fl, 100)
@@ -981,7 +1025,7 @@ func c14Registration(c *Ctx) {
 			case *ssa.Store:
 				switch a := x.Addr.(type) {
 				case *ssa.IndexAddr:
-					if isTable(k.Key(a.X) + "[") {
+					if isTable(k.Key(a.X)+"[") || c14IsTableValue(k, a.X, 0) {
 						writes = append(writes, tw{fn, in, "", x.Val})
 					}
 				case *ssa.FieldAddr:
@@ -1203,4 +1247,76 @@ func c14ReleasedOnce(p *Prog, fn *ssa.Function, in ssa.Instruction) string {
 		return ""
 	}
 	return "the slot is cleared on every call: a repeated call (TimeoutContext releases the view-change handler from its timeout handler and again from the caller's cancel) clears a slot that Register has re-used for another handler"
+}
+
+// c14TailForwarded: every return of fn hands back, unchanged and in order, the results of one and the same call of a
+// private method of fn's receiver type on the same receiver, and fn does nothing else to the queue's fields.
+func c14TailForwarded(p *Prog, fn *ssa.Function) *ssa.Function {
+	var call *ssa.Call
+	for _, r := range returnsOf(fn) {
+		for i, res := range r.Results {
+			v := res
+			if u, ok := v.(*ssa.UnOp); ok { // named results spilled by the defer
+				if a, ok := u.X.(*ssa.Alloc); ok {
+					var vals []ssa.Value
+					storedInto(a, func(sv ssa.Value) bool { vals = append(vals, sv); return false })
+					if len(vals) == 1 {
+						v = vals[0]
+					}
+				}
+			}
+			ex, ok := v.(*ssa.Extract)
+			if !ok || ex.Index != i {
+				return nil
+			}
+			c2, ok := ex.Tuple.(*ssa.Call)
+			if !ok || (call != nil && c2 != call) {
+				return nil
+			}
+			call = c2
+		}
+	}
+	if call == nil {
+		return nil
+	}
+	cal := call.Call.StaticCallee()
+	if cal == nil || cal.Blocks == nil || cal.Object() == nil || cal.Object().Exported() || funcPkgPath(cal) != funcPkgPath(fn) ||
+		len(call.Call.Args) != 1 || len(fn.Params) == 0 || call.Call.Args[0] != ssa.Value(fn.Params[0]) {
+		return nil
+	}
+	touches := false
+	eachInstr(fn, func(in ssa.Instruction) {
+		if fa, ok := in.(*ssa.FieldAddr); ok && fa.X == ssa.Value(fn.Params[0]) {
+			if name := fieldVar(fa.X.Type(), fa.Field).Name(); name != "mut" {
+				touches = true
+			}
+		}
+	})
+	if touches {
+		return nil
+	}
+	return cal
+}
+
+// c14IsTableValue: v is a handler list read from EventLoop.handlers under a local name: the looked-up list,
+// that list grown by append, or a join of such (`slots := el.handlers[t]; if i == -1 { slots = append(slots, handler{}) }`).
+func c14IsTableValue(k *Keyer, v ssa.Value, depth int) bool {
+	if depth > 4 {
+		return false
+	}
+	switch x := v.(type) {
+	case *ssa.Phi:
+		for _, e := range x.Edges {
+			if !c14IsTableValue(k, e, depth+1) {
+				return false
+			}
+		}
+		return len(x.Edges) > 0
+	case *ssa.Call:
+		if b, ok := x.Call.Value.(*ssa.Builtin); ok && b.Name() == "append" {
+			return c14IsTableValue(k, x.Call.Args[0], depth+1)
+		}
+	}
+	key := k.Key(v)
+	return strings.Contains(key, kEL+"handlers[") && !strings.Contains(key, "]#1")
 }
